@@ -91,14 +91,24 @@ Print Assumptions C05_parsed_module_second_encode_same.
    D01 the two real encodings were observed equal, and inside it they were observed to differ -- the class is
    exactly the set of histories for which the model of the in-place rewriting predicts a difference, so it cannot
    hide a second encode that differs for another reason. *)
-Theorem C05_checker_sound_index_side : forall c : rcase,
-  agree05 c = true -> negb (o_api_panic c) && encoded c = true -> known_D01 c = false -> o_same2 c = true.
+Theorem C05_checker_sound_index_side : forall c2 : rcase2,
+  agree05 c2 = true -> negb (o_api_panic (rc2 c2)) && encoded (rc2 c2) = true -> known_D01 (rc2 c2) = false ->
+  o_same2 (rc2 c2) = true.
 Proof. exact checker05_sound. Qed.
 Print Assumptions C05_checker_sound_index_side.
-Theorem C05_known_D01_is_exact : forall c : rcase,
-  agree05 c = true -> negb (o_api_panic c) && encoded c = true -> known_D01 c = true -> o_same2 c = false.
+Theorem C05_known_D01_is_exact : forall c2 : rcase2,
+  agree05 c2 = true -> negb (o_api_panic (rc2 c2)) && encoded (rc2 c2) = true -> known_D01 (rc2 c2) = true ->
+  o_same2 (rc2 c2) = false.
 Proof. exact known_D01_exact. Qed.
 Print Assumptions C05_known_D01_is_exact.
+(* the correspondence compares the decoded CONTENT of the second real encoding with the model's second encoding (not
+   only "same / different"): on an agreeing case they are equal *)
+Theorem C05_second_encoding_is_the_models : forall (c2 : rcase2) e2,
+  agree05 c2 = true -> negb (o_api_panic (rc2 c2)) && encoded (rc2 c2) = true ->
+  encode_again (final_model (rc2 c2)) (dead_exports (h_ops (rc2 c2))) (sites (rc2 c2)) = Ok e2 ->
+  exists e2', o_enc2 c2 = Some e2' /\ emod_eqb e2 e2' = true.
+Proof. exact second_encoding_is_the_models. Qed.
+Print Assumptions C05_second_encoding_is_the_models.
 
 (* non-vacuity: an edited but unflagged history (two add_global, one export) on a module with imports *)
 Example C05_unflagged_nonvacuous :
